@@ -67,6 +67,11 @@ def run(report, tier, seed):
         got = ev('F2', A1=a, D1=d)
         return got == d if a else (got is False)
     ''')
+    add('if_fractional_condition', 'F1', 'i: int, d: int, e: int', '0 <= i < 8', '''
+        from crosshair import realize
+        x = [0.5, -0.25, 0.0, 1.5, -0.0, 1e-9, 0.999, -3.75][realize(i)]
+        return ev('F1', A1=x, D1=d, E1=e) == (d if x != 0 else e) and ev('F2', A1=x, D1=d) == (d if x != 0 else False) and ev('F4', A1=x, B1=x, D1=d, E1=e, F1=7) == ((d if x != 0 else e) if x != 0 else 7)
+    ''')
     add('if_comparison_condition', 'F3', 'a: int, b: int, d: int, e: int', 'True', "return ev('F3', A1=a, B1=b, D1=d, E1=e) == (d if a > b else e)")
     add('if_eq_condition', 'F27', 'a: int, b: int, d: int, e: int', 'True', "return ev('F27', A1=a, B1=b, D1=d, E1=e) == (d if a == b else e)")
     add('if_nested_branch', 'F4', 'a: C, b: C, d: int, e: int, f: int', 'True', "return ev('F4', A1=a, B1=b, D1=d, E1=e, F1=f) == ((d if b else e) if a else f)")
